@@ -433,6 +433,25 @@ pub fn scan_ledger(db: &InMemorySubstateDatabase, opts: &ScanOptions) -> LedgerS
                 );
             }
 
+            // may substates of this partition own nodes at all? (from the declarations, not the validator)
+            let ownership_allowed = match &kind {
+                Kind::KvStore => match info {
+                    Some(TypeInfoSubstate::KeyValueStore(k)) => k.generic_substitutions.allow_ownership,
+                    _ => true,
+                },
+                Kind::Object(_, part, mbp) => match part {
+                    Part::Fields => true,
+                    Part::Kv(c) | Part::Index(c) | Part::Sorted(c) => reader
+                        .get_blueprint_definition(mbp)
+                        .ok()
+                        .and_then(|d| d.interface.state.collections.get(*c as usize).map(|(_, sch)| match sch {
+                            BlueprintCollectionSchema::KeyValueStore(x) | BlueprintCollectionSchema::Index(x) | BlueprintCollectionSchema::SortedIndex(x) => x.allow_ownership,
+                        }))
+                        .unwrap_or(true),
+                },
+                Kind::TypeInfo | Kind::Schemas | Kind::Boot => false,
+                Kind::Unknown => true,
+            };
             // resolve schemas once per partition
             let mut key_schema = None;
             let mut value_schema = None;
@@ -490,6 +509,12 @@ pub fn scan_ledger(db: &InMemorySubstateDatabase, opts: &ScanOptions) -> LedgerS
                         format!("node {} partition {} key {}: {:?}", hexn(node), pn.0, hex::encode(&sort_key.0), e),
                     ),
                     Ok(v) => {
+                        if !ownership_allowed && !v.owned_nodes().is_empty() {
+                            s.add(
+                                "owned node stored where the declaration does not allow ownership",
+                                format!("node {} ({:?}) partition {} key {} owns {:?}", hexn(node), s.blueprint.get(node), pn.0, hex::encode(&sort_key.0), v.owned_nodes().iter().map(hexn).collect::<Vec<_>>()),
+                            );
+                        }
                         for o in v.owned_nodes() {
                             if let Some((prev, pp, pkey)) = s.owner.insert(*o, (*node, pn.0, sort_key.0.clone())) {
                                 s.add(
